@@ -59,7 +59,7 @@ Definition limit_after (auth : string) (l : Z) (o : op) : Z :=
 Lemma step_limit cfg e w o :
   pass_limit (w_o (fst (step cfg e w o))) = limit_after (cfg_authority cfg) (pass_limit (w_o w)) o.
 Proof.
-  destruct o as [p tape lie|signer m tape|to d a|q| |]; cbn [step fst limit_after]; try reflexivity.
+  destruct o as [p tape lie|signer m tape|to d a|q| | |]; cbn [step fst limit_after]; try reflexivity.
   - pose proof (recv_controls cfg e w p tape lie) as H. unfold controls in H. inversion H as [[H1 H2 H3 Hm]].
     unfold pass_limit. rewrite Hm. reflexivity.
   - destruct (step_msg cfg w signer m tape) as [w' x] eqn:E. cbn [fst].
@@ -98,7 +98,7 @@ Theorem oversize_refused cfg e w p tape denom amount sender receiver pl f :
   pass_limit (w_o w) < slen (f_pass f) ->
   (exists l, rr_out (recv cfg e w p tape) = OAckErr l) /\ rr_trace (recv cfg e w p tape) = [] /\ rr_world (recv cfg e w p tape) = w.
 Proof.
-  intros Hd Hr Hf Hlen. unfold recv, recv_lie, recv_with.
+  intros Hd Hr Hf Hlen. unfold recv, recv_lie, recv_with, recv_generic.
   destruct (negb (ccid_valid _)); [cbn; eauto|].
   destruct (_ || _); [cbn; eauto|].
   destruct (negb (existsb _ _)); [cbn; eauto|].
